@@ -34,6 +34,9 @@ class FA:
         if r[0] == "module":
             return r[1].name
         if r[0] == "var":
+            c = _module_constant(self.fi.module, name)
+            if c is not None:
+                return c
             return f"{self.fi.module.name}.{name}"
         return None
 
@@ -128,6 +131,25 @@ class FA:
                 c = self.sym.term(e, t)
                 out.append((e, pol, c if pol else negate(c), t))
         return out
+
+    def referent(self, e: ast.AST, at: int, depth: int = 4) -> ast.AST:
+        """Follow local aliases: a name whose only reaching definition is 'x = <name or attribute chain>' stands for that
+        expression (the same object).  -> the expression at the end of the alias chain."""
+        while depth > 0 and isinstance(e, ast.Name):
+            defs = self.cfg.reaching().get(at, {}).get(e.id, set())
+            if len(defs) != 1:
+                break
+            (d,) = defs
+            if self.cfg.nodes[d].kind == "entry":
+                break
+            val = self.cfg.def_value(d, e.id)
+            x = val
+            while isinstance(x, ast.Attribute):
+                x = x.value
+            if val is None or not isinstance(x, ast.Name):
+                break
+            e, at, depth = val, d, depth - 1
+        return e
 
     def returns(self) -> List[Tuple[int, Optional[Term]]]:
         """(node, term of the returned value or None for a bare return) of every reachable return."""
@@ -224,6 +246,30 @@ class FA:
                 if isinstance(x, (ast.Yield, ast.YieldFrom)):
                     out.append((n, x))
         return out
+
+
+def _module_constant(m, name: str):
+    """('const', v) when ``name`` is bound exactly once in the module, at top level, to a str / number / bool / None literal
+    and no function declares it global - a named constant."""
+    cache = m.__dict__.setdefault("_const_cache", {})
+    if name in cache:
+        return cache[name]
+    val = None
+    n_bind = 0
+    for st in ast.walk(m.tree):
+        if isinstance(st, ast.Global) and name in st.names:
+            n_bind += 2
+        elif isinstance(st, ast.Name) and st.id == name and isinstance(st.ctx, (ast.Store, ast.Del)):
+            n_bind += 1
+    for st in m.tree.body:
+        if isinstance(st, ast.Assign) and len(st.targets) == 1 and isinstance(st.targets[0], ast.Name) and \
+                st.targets[0].id == name and isinstance(st.value, ast.Constant) and not isinstance(st.value.value, bytes):
+            val = ("const", st.value.value)
+    # a local of the same name in some function also counts as a Store above: then only a unique top-level binding with
+    # no other binding anywhere is accepted (conservative)
+    r = val if (val is not None and n_bind == 1) else None
+    cache[name] = r
+    return r
 
 
 def _non_none(t) -> Optional[bool]:
